@@ -7,6 +7,7 @@ import (
 	"context"
 	"errors"
 	"fmt"
+	"io"
 	"sort"
 	"strings"
 	"testing"
@@ -31,7 +32,7 @@ import (
 var c17File = []byte{10, 11, 12, 13, 14}
 
 type c17Op struct {
-	Kind  string `json:"kind"` // get | set | setbad | delall | delnone | failnext
+	Kind  string `json:"kind"` // get | set | setbad | delall | delnone | failnext | failnext-eof | failnext-eof-partial
 	Start int64  `json:"start,omitempty"`
 	Len   int64  `json:"len,omitempty"`
 }
@@ -46,7 +47,7 @@ func (o c17Op) String() string {
 
 type c17Env struct {
 	rc         *RangeCache
-	failNext   bool
+	failNext   int // 0 = healthy; 1 = error, garbage in the buffer; 2 = io.EOF, nothing read; 3 = wrapped io.EOF after half of the bytes
 	calls      int
 	failedCall bool
 	failCount  int
@@ -86,10 +87,22 @@ func c17New() *c17Env {
 	e := &c17Env{}
 	e.rc = NewRangeCache(int64(len(c17File)), "c17", func(p []byte, off int64) (int, error) {
 		e.calls++
-		if e.failNext {
-			e.failNext = false
+		if mode := e.failNext; mode != 0 {
+			e.failNext = 0
 			e.failedCall = true
 			e.failCount++
+			switch mode {
+			case 2:
+				// the connection closed before the first byte: nothing read, plain io.EOF
+				return 0, io.EOF
+			case 3:
+				// the body ended early: half of the bytes arrived, the error wraps io.EOF
+				half := len(p) / 2
+				if off >= 0 && off+int64(half) <= int64(len(c17File)) {
+					copy(p[:half], c17File[off:off+int64(half)])
+				}
+				return half, fmt.Errorf("c17: short body: %w", io.EOF)
+			}
 			// a failing transport may leave garbage in the buffer
 			for i := range p {
 				p[i] = 0xEE
@@ -154,7 +167,11 @@ func (e *c17Env) apply(o c17Op) (class, detail string) {
 	case "delnone":
 		e.rc.DeleteOldEntries(ctx, 1000*time.Hour)
 	case "failnext":
-		e.failNext = true
+		e.failNext = 1
+	case "failnext-eof":
+		e.failNext = 2
+	case "failnext-eof-partial":
+		e.failNext = 3
 	}
 	return e.checkHeld(o)
 }
@@ -181,7 +198,7 @@ func c17Alphabet() []c17Op {
 		ops = append(ops, c17Op{"set", r[0], r[1]})
 	}
 	ops = append(ops, c17Op{"setbad", 1, 2}, c17Op{"setbad", 4, 2})
-	ops = append(ops, c17Op{Kind: "delall"}, c17Op{Kind: "delnone"}, c17Op{Kind: "failnext"})
+	ops = append(ops, c17Op{Kind: "delall"}, c17Op{Kind: "delnone"}, c17Op{Kind: "failnext"}, c17Op{Kind: "failnext-eof"}, c17Op{Kind: "failnext-eof-partial"})
 	return ops
 }
 
@@ -422,6 +439,8 @@ func c17Scenarios() []c17Scenario {
 		{Name: "preset subset, superset read + reader", Preset: []c17Op{{"set", 1, 2}}, Threads: []c17Thread{{[]c17Op{g(0, 5)}}, {[]c17Op{g(1, 2), g(1, 1)}}}},
 		{Name: "failure + two readers", Preset: []c17Op{fail}, Threads: []c17Thread{{[]c17Op{g(0, 3)}}, {[]c17Op{g(1, 2), g(0, 3)}}}},
 		{Name: "failure + reader + expiry", Preset: []c17Op{{"set", 3, 2}, fail}, Threads: []c17Thread{{[]c17Op{g(0, 5), g(0, 5)}}, {[]c17Op{g(3, 2)}}, {[]c17Op{del}}}},
+		{Name: "EOF failure + two readers", Preset: []c17Op{{Kind: "failnext-eof"}}, Threads: []c17Thread{{[]c17Op{g(0, 3)}}, {[]c17Op{g(1, 2), g(0, 3)}}}},
+		{Name: "short-body failure + two readers", Preset: []c17Op{{Kind: "failnext-eof-partial"}}, Threads: []c17Thread{{[]c17Op{g(0, 4)}}, {[]c17Op{g(1, 2), g(0, 4)}}}},
 		{Name: "three readers", Threads: []c17Thread{{[]c17Op{g(0, 4)}}, {[]c17Op{g(1, 4)}}, {[]c17Op{g(2, 2), g(0, 5)}}}},
 		{Name: "reader + concurrent SetRange", Threads: []c17Thread{{[]c17Op{g(0, 4), g(1, 2)}}, {[]c17Op{{"set", 1, 3}, {"set", 0, 5}}}}},
 	}
